@@ -223,6 +223,16 @@ def c10_obligations(tier, seed):
          "query_cap_s": 120, "cap_s": (600, 600), "stubs": [], "role": "commit_step", "instantiation": "generic MIR (any Database)",
          "assumes": ["callees are opaque events: Transaction::commit_transaction (decided by C10.txn_log), TimedCache::{enable_clean, batch_put, flush}, Database::batch_set (fails as a whole or succeeds)",
                      "read failures during a publish, the rollback calls in Directory::publish and everything a later publish does are outside this kernel"]},
+        {"id": "C10.publish_paths", "engine": "mir", "kind": "publish",
+         "claim": "Directory::publish: no transaction is left open on any returning path (opened => committed or rolled back; a refused begin writes, commits and rolls back nothing); an error means "
+                  "'not committed' (nothing fallible follows a successful commit); nothing is inserted or written outside the transaction; Ok only after a successful commit or when nothing changes; "
+                  "auxiliary: StorageManager::batch_set cannot fail while a transaction is open",
+         "functions": ["akd/src/directory.rs::publish", MGR + "::batch_set"], "width": 64,
+         "bound": "every path of the coroutine with each loop body executed at most once (loop bound 1; the loops derive the update set and do not touch the transaction), every callee an event "
+                  "returning an arbitrary value of its type, logging off, every await completes",
+         "query_cap_s": 120, "cap_s": (600, 600), "stubs": [], "role": "publish_paths", "instantiation": "generic MIR (any Configuration, Database, VRF)",
+         "assumes": ["callees opaque (commit step: C10.commit_step; transaction log: C10.txn_log; tree insertion is outside every claim)",
+                     "paths that iterate a loop twice or more are pruned (stated bound)"]},
         txn,
     ]
 
@@ -475,7 +485,7 @@ PROPERTIES = {
                             "no well-formed tree admits both a membership and a non-membership proof of one label (C05, within its bounds)", STD_TRUST],
             "outside_claim": ["epochs >= 2^W for the stated width W", "malformed (non-canonical) trees: out of scope of the property's quantifier (leaf sets in a canonical trie)"]},
     "C10": {"obligations": c10_obligations, "jobs": 2, "assumptions": [KERNEL_ONLY],
-            "outside_claim": ["storage READ failures during a publish", "Directory::publish's own error handling (rollback on insertion failure)", "the equality of the state after a later publish with the state of a run without the failure "
+            "outside_claim": ["what a storage READ failure does inside the callees of publish (only publish's own reaction to a failing callee is decided)", "the equality of the state after a later publish with the state of a run without the failure "
                               "(exercised by the native battery native_commitfail only when a counterexample has to be confirmed)", "partial database writes (the property's fault model is the commit write failing as a whole)"]},
     "C13": {"obligations": c13_obligations, "jobs": 2, "assumptions": [KERNEL_ONLY],
             "outside_claim": ["interleavings with publishes, the change poller, cache flushes; history generation re-reading the epoch record"]},
